@@ -7,6 +7,7 @@ import RedkaModel.Spec.State
 import RedkaModel.Spec.Seq
 import RedkaModel.Model.Op
 import RedkaModel.Sql.Glob
+import RedkaModel.Spec.Glob
 
 namespace Redka.Spec
 
@@ -425,7 +426,7 @@ def step (op : Op) (now : Int) (s : State) : SRes :=
   | .keyExpire k ttl => keyExpireAt s k (now + ttl)
   | .keyExpireAt k t => keyExpireAt s k t
   | .keyGet k => keyGet s k
-  | .keyKeys p => ok (.list ((s.filter (fun e => Glob.sqliteGlob p e.1)).map (fun e => keyVal e.1 e.2))) s
+  | .keyKeys p => ok (.list ((s.filter (fun e => globSpec p e.1)).map (fun e => keyVal e.1 e.2))) s
   | .keyLen => ok (.int s.length) s
   | .keyPersist k => keyPersist s k
   | .keyRandom o =>
